@@ -2998,7 +2998,12 @@ class Composite(ArmiObject):
         This needed to be overridden due to linked components which actually have a
         parameter value of another ARMI component.
         """
-        self._backupCache = (self.cached, self._backupCache)
+        # derivedMustUpdate (blocks) says whether stored derived-shape volumes are current: it is cache state too
+        self._backupCache = (
+            self.cached,
+            self._backupCache,
+            getattr(self, "derivedMustUpdate", None),
+        )
         self.cached = {}  # don't .clear(), using reference above!
         self.p.backUp()
         if self.spatialGrid is not None:
@@ -3014,7 +3019,9 @@ class Composite(ArmiObject):
             restores the state of all parameters not in `paramsToApply`
         """
         self.p.restoreBackup(paramsToApply)
-        self.cached, self._backupCache = self._backupCache
+        self.cached, self._backupCache, derivedMustUpdate = self._backupCache
+        if derivedMustUpdate is not None:
+            self.derivedMustUpdate = derivedMustUpdate
         if self.spatialGrid is not None:
             self.spatialGrid.restoreBackup()
 
